@@ -171,9 +171,16 @@ class C16:
 
         def state(o):
             try:
-                return [o.name, o.octave]
+                return [norm_name(o.name), o.octave]
             except Exception as e:  # a pitch object that cannot even be read is an altered object
                 return ['<unreadable>', type(e).__name__]
+
+        def norm_name(name):
+            # letter + alteration in one canonical text, whatever accidental signs the representation uses ('+'/'#', '-'/'b')
+            if not isinstance(name, str) or not name:
+                return name
+            alt = name.count('+') + name.count('#') - name[1:].count('-') - name[1:].count('b')
+            return name[0].upper() + ('+' * alt if alt > 0 else '-' * (-alt))
 
         def check_pool(seq, opkind, touched):
             for j, o in enumerate(pool):
